@@ -53,9 +53,43 @@ def as_map(fields):
     return {bytes(k).decode(): v for k, v in fields}
 
 
+def marks_own_parameter(e):
+    """some task's task_outputs marked one of the task's own (transitive) parameters as its output"""
+    nodes = e["nodes"]
+
+    def refs(v, acc):
+        if v["t"] == "ref":
+            acc.append(v["n"])
+        elif v["t"] == "list":
+            for x in v["v"]:
+                refs(x, acc)
+        elif v["t"] == "dict":
+            for _, x in v["v"]:
+                refs(x, acc)
+
+    for i, x in enumerate(nodes):
+        t = x["task"]
+        if t is None or t == i or t >= len(nodes):
+            continue
+        seen, todo = set(), [t]
+        while todo:
+            n = todo.pop()
+            if n in seen or n >= len(nodes):
+                continue
+            seen.add(n)
+            acc = []
+            for _, v in nodes[n]["fields"]:
+                refs(v, acc)
+            todo.extend(acc)
+        if i in seen:
+            return True
+    return False
+
+
 def oracle(c, case, r):
     e = r["export"]
     desc = case["desc"]
+    own = ":task-marks-own-parameter" if marks_own_parameter(e) else ""
     for d in r["defs"]:
         i = d["id"]
         orig = e["nodes"][i]
@@ -85,7 +119,8 @@ def oracle(c, case, r):
             c.violation(key, "init tasks differ after reload", dict(ctx, before=orig["init"], after=rel["init"]))
         b, a = r["ids_before"].get(str(i)), r["ids_after"].get(str(i))
         if b != a:
-            cause = ("meta-false" if any(e["nodes"][j["id"]]["meta"] is False for j in r["defs"]) else
+            cause = ("task-marks-own-parameter" if own else
+                     "meta-false" if any(e["nodes"][j["id"]]["meta"] is False for j in r["defs"]) else
                      "init-tasks" if any(e["nodes"][j["id"]]["init"] for j in r["defs"]) else "other")
             c.violation(f"C12:identifier-changed-after-reload:{cause}",
                         "the identifier recomputed on the reloaded graph differs from the original",
@@ -104,8 +139,15 @@ def oracle(c, case, r):
     rootid = r["ids_before"].get(str(case["root"]))
     for path in ("id_state_dict", "id_save_load"):
         if r[path] != rootid and r["ids_after"].get(str(case["root"])) == rootid:
-            c.violation("C12:path-differs:" + path, "another save/load path gives another identifier",
+            c.violation("C12:path-differs:" + path + own, "another save/load path gives another identifier",
                         dict(desc=desc, root=case["root"], got=r[path], want=rootid))
+    for path in ("raw_state_dict", "raw_save_load"):
+        if r.get(path) != r.get("raw_root_before"):
+            c.violation("C12:raw-identifier-differs:" + path + own, "the raw identifier of a reloaded configuration differs from the original",
+                        dict(desc=desc, root=case["root"], got=r.get(path), want=r.get("raw_root_before")))
+    if r.get("embed_before") != r.get("embed_state_dict"):
+        c.violation("C12:embedding-identifier-differs" + own, "a configuration embedding a reloaded one is identified differently",
+                    dict(desc=desc, root=case["root"], got=r.get("embed_state_dict"), want=r.get("embed_before")))
     if r["defs_state_dict"] != r["defs"] or r["defs_save"] != r["defs"]:
         c.violation("C12:paths-write-different-definitions", "state_dict / save write other definitions than __get_objects__",
                     dict(desc=desc, root=case["root"]))
